@@ -106,6 +106,7 @@ func assembleEnc(buf []byte, enc [][]byte, mask uint32) []byte {
 }
 
 func run(c *fw.Ctx) {
+	c.ConcPart()
 	r := &runner{c: c, reported: map[string]int{}}
 	// the live heap is tiny; keep the garbage of 16 concurrent workers small even when the GC is starved of CPU
 	debug.SetGCPercent(50)
